@@ -6,7 +6,9 @@ import (
 	"os"
 
 	"fortio.org/log"
+	"grol.io/grol/eval"
 	"grol.io/grol/extensions"
+	"grol.io/grol/object"
 )
 
 // The extension tables are process globals initialised once; the IO configuration of a
@@ -27,4 +29,39 @@ func init() {
 	if err := extensions.Init(&cfg); err != nil {
 		panic(err)
 	}
+	registerHarnessExtensions()
+}
+
+// verifCounter backs verif_counter(), a deterministic stand-in for non-deterministic extensions (rand, time.now).
+var verifCounter int64
+
+// Harness extensions, added through the public object.CreateFunction API:
+//   verif_counter()  DontCache, returns 0,1,2,... (reset per session by the harness)
+//   verif_panic()    raises a Go runtime panic inside the evaluator (so checks about recovered panics do not
+//                    depend on grol keeping a crashing operator)
+//   verif_cancel()   cancels the evaluation context (State.Cancel), like a deadline or ^C landing mid-evaluation
+func registerHarnessExtensions() {
+	must := func(err error) {
+		if err != nil {
+			panic(err)
+		}
+	}
+	must(object.CreateFunction(object.Extension{Name: "verif_counter", MinArgs: 0, MaxArgs: 0, DontCache: true,
+		Callback: func(_ any, _ string, _ []object.Object) object.Object {
+			verifCounter++
+			return object.Integer{Value: verifCounter - 1}
+		}}))
+	must(object.CreateFunction(object.Extension{Name: "verif_panic", MinArgs: 0, MaxArgs: 0, DontCache: true,
+		Callback: func(_ any, _ string, _ []object.Object) object.Object {
+			var m map[string]int
+			m["boom"] = 1 // assignment to entry in nil map: a genuine Go runtime panic
+			return object.NULL
+		}}))
+	must(object.CreateFunction(object.Extension{Name: "verif_cancel", MinArgs: 0, MaxArgs: 0, DontCache: true,
+		Callback: func(st any, _ string, _ []object.Object) object.Object {
+			if s, ok := st.(*eval.State); ok && s.Cancel != nil {
+				s.Cancel()
+			}
+			return object.NULL
+		}}))
 }
